@@ -75,12 +75,18 @@ def evaluate(e, env):
             recv = evaluate(e.func.value, env)
             if not isinstance(recv, str): raise Unsupported("method call on a non-string")
             return getattr(recv, e.func.attr)(*[evaluate(a, env) for a in e.args])      # Python's own str semantics (trusted base)
-        if isinstance(e.func, ast.Name) and e.func.id in ("len", "str", "bool", "list", "tuple", "sorted", "set", "dict") and not e.keywords: return {"len": len, "str": str, "bool": bool, "list": list, "tuple": tuple, "sorted": sorted, "set": set, "dict": dict}[e.func.id](*[evaluate(a, env) for a in e.args])
-        if isinstance(e.func, ast.Attribute) and e.func.attr in ("items", "keys", "values", "get") and not e.keywords:
+        if isinstance(e.func, ast.Name) and e.func.id in ("len", "str", "bool", "list", "tuple", "sorted", "set", "dict", "id", "type") and not e.keywords: return {"len": len, "str": str, "bool": bool, "list": list, "tuple": tuple, "sorted": sorted, "set": set, "dict": dict, "id": id, "type": lambda o: o.get(".__class__") if isinstance(o, dict) and ".__class__" in o else type(o)}[e.func.id](*[evaluate(a, env) for a in e.args])
+        if isinstance(e.func, ast.Attribute) and e.func.attr in ("items", "keys", "values", "get", "pop", "clear", "setdefault") and not e.keywords:
             recv = evaluate(e.func.value, env)
             if isinstance(recv, dict) and not any(isinstance(k_, str) and k_.startswith(".") for k_ in recv):
-                r_ = getattr(recv, e.func.attr)(*[evaluate(a, env) for a in e.args])
-                return list(r_) if e.func.attr != "get" else r_
+                try: r_ = getattr(recv, e.func.attr)(*[evaluate(a, env) for a in e.args])
+                except KeyError: raise Raised("KeyError")
+                return list(r_) if e.func.attr in ("items", "keys", "values") else r_
+        if isinstance(e.func, ast.Attribute) and e.func.attr in ("append", "extend", "remove", "insert", "clear") and not e.keywords:
+            recv = evaluate(e.func.value, env)
+            if isinstance(recv, list):
+                try: return getattr(recv, e.func.attr)(*[evaluate(a, env) for a in e.args])
+                except ValueError: raise Raised("ValueError")
         if isinstance(e.func, ast.Name) and e.func.id == "setattr" and len(e.args) == 3:
             base = evaluate(e.args[0], env)
             if not isinstance(base, dict): raise Unsupported("setattr on " + type(base).__name__)
